@@ -346,7 +346,69 @@ fn handle(parts: &[&str]) -> String {
             }
             format!("ok {}", out.join(" "))
         }
+        "sched" => {
+            // C17: run format jobs in a given schedule inside this process.  `sched seq <job>...` runs them in order on this thread;
+            // `sched par <threads> <rounds> <job>...` runs every job on every thread (each thread starts at another job) concurrently.
+            // job = api:hextext:width:tab:reorder[:lo:hi]   api c = format_content, w = format_with_width, r = format_source_range
+            // reply: per job the distinct results observed, `|`-separated, jobs separated by blanks
+            let (threads, rounds, jobs) = if parts[1] == "par" {
+                (num(parts[2]), num(parts[3]), &parts[4..])
+            } else {
+                (1, 1, &parts[2..])
+            };
+            let jobs: Vec<Vec<String>> = jobs.iter().map(|j| j.split(':').map(|x| x.to_string()).collect()).collect();
+            let n = jobs.len();
+            let results = std::sync::Mutex::new(vec![Vec::<String>::new(); n]);
+            std::thread::scope(|sc| {
+                let mut hs = vec![];
+                for t in 0..threads {
+                    let jobs = &jobs;
+                    let results = &results;
+                    let work = move || {
+                        for r in 0..rounds {
+                            for k in 0..n {
+                                let i = if threads > 1 { (k + t + r) % n } else { k };
+                                let out = guarded(|| run_job(&jobs[i]));
+                                let mut g = results.lock().unwrap();
+                                if !g[i].contains(&out) {
+                                    g[i].push(out);
+                                }
+                            }
+                        }
+                    };
+                    if threads > 1 {
+                        hs.push(sc.spawn(work));
+                    } else {
+                        work();
+                    }
+                }
+                for h in hs {
+                    let _ = h.join();
+                }
+            });
+            let g = results.lock().unwrap();
+            format!("ok {}", g.iter().map(|v| v.join("|")).collect::<Vec<_>>().join(" "))
+        }
         other => format!("unknown {}", other),
+    }
+}
+
+fn run_job(j: &[String]) -> String {
+    let s = unhex(&j[1]);
+    match j[0].as_str() {
+        "w" => format!("ok:{}", hex(&typstyle_core::format_with_width(&s, num(&j[2])))),
+        "r" => {
+            let src = Source::detached(s);
+            let t = Typstyle::new(config(&j[2], &j[3], &j[4]));
+            match t.format_source_range(&src, num(&j[5])..num(&j[6])) {
+                Ok((r, txt)) => format!("ok:{}:{}:{}", r.start, r.end, hex(&txt)),
+                Err(_) => "err".into(),
+            }
+        }
+        _ => match Typstyle::new(config(&j[2], &j[3], &j[4])).format_content(s) {
+            Ok(r) => format!("ok:{}", hex(&r)),
+            Err(_) => "err".into(),
+        },
     }
 }
 
